@@ -6578,6 +6578,10 @@ fn eval_expr(
                 // No more expressions to evaluate in this function, we're returning.
                 let stack_frame = env.current_frame_mut();
                 stack_frame.exprs_to_eval.clear();
+                // We're leaving every block in this frame. This
+                // matters at the toplevel, where the frame outlives
+                // the `return`.
+                stack_frame.bindings.block_bindings.truncate(1);
             } else {
                 env.push_expr_to_eval(
                     ExpressionState::EvaluatedSubexpressions,
